@@ -194,7 +194,11 @@ def observe_instance(inst, rnd):
                 rnd.shuffle(r)                                             # arbitrary storage order
                 steps.append(r)
         rnd.shuffle(steps)                                                 # arbitrary step order
-        traces.append(np.array([junk + steps], dtype=np.int8))
+        if M % 2 == 0 and inst["idx"] % 3 == 0:
+            half = M // 2                                                  # two chains: the posterior merges them
+            traces.append(np.array([junk + steps[:half], junk + steps[half:]], dtype=np.int8))
+        else:
+            traces.append(np.array([junk + steps], dtype=np.int8))
     prog, loci = context(ps, True)
     locus, base = loci[lname]
     strings = {hap_string(locus, r): i for i, r in enumerate(rows)}
